@@ -407,10 +407,20 @@ class Cache(Filter[Iterable[Any], Iterable[Any]]):
 
         yield from self._cache
         items = self._iter
-        while current := list(islice(self._iter,n_slice)):
-            self._cache.extend(current)
+        cache = self._cache
+        while True:
+            try:
+                current = list(islice(items,n_slice))
+            except Exception:
+                #The source failed part way through. A failed iterator can't be resumed (it only looks
+                #exhausted) so what we cached so far must not be mistaken for all there is. We forget
+                #it so that the next read starts over (and fails again if the source still fails).
+                if self._iter is items: self._cache,self._iter = None,None
+                raise
+            if not current: break
+            cache.extend(current)
             yield from current
-        self._iter = None
+        if self._iter is items: self._iter = None
 
 class Insert(Filter[Iterable[Any], Iterable[Any]]):
     def __init__(self, insert_items: Sequence[Any]) -> None:
